@@ -616,6 +616,10 @@ def builtin : Nat → Fn → Bytes → List Node → Pos → Nat → EM Unit
         let key ← keyOf k
         let vs ← evalList f rest
         let s ← getS
+        -- a value that contains itself cannot be formatted: error at the first such argument
+        match (rest.zip vs).find? (fun (nx : Node × TV) => containsItself s.world.heap nx.2.v) with
+        | some nx => runErr (Node.start nx.1) "formats-a-value-that-contains-itself"
+        | none =>
         let q := B "sprintf:" ++ hexOf fmts ++ [58] ++
           (vs.foldl (fun (acc : Bytes) (x : TV) => acc ++ renderV s.world.heap x.v ++ [59]) [])
         let a ← ask env q
@@ -634,6 +638,9 @@ def builtin : Nat → Fn → Bytes → List Node → Pos → Nat → EM Unit
              (do
                let vs ← evalList f rest
                let st ← getS
+               match (rest.zip vs).find? (fun (nx : Node × TV) => containsItself st.world.heap nx.2.v) with
+               | some nx => runErr (Node.start nx.1) "formats-a-value-that-contains-itself"
+               | none =>
                let q := B "sprintf:" ++ hexOf fmts ++ [58] ++ (vs.foldl (fun (acc : Bytes) (x : TV) => acc ++ renderV st.world.heap x.v ++ [59]) [])
                let a ← ask env q
                modWorld fun w => { w with trace := Event.out (unhex (splitAnswer a).2) :: w.trace }) s1
